@@ -1602,6 +1602,13 @@ func main() {
 					}
 					if fs := sc.check(got, true); len(fs) > 0 {
 						report(sc, &pt, fs, got, markedThreadExcerpt(tr, tid, 14), tf)
+					} else if what := aftermath(pdir, sc, got); what != "" {
+						// the state after the kill was fine, but the store no longer behaves like a map for the
+						// keys the killed operation touched: the crash left something behind that corrupts later writes
+						r.Violation(sc.Kind+":after-crash:later-write-corrupted", what, map[string]interface{}{"scenario": sc.ID, "class": sc.Class,
+							"crash_point": fmt.Sprintf("%s #%d", pt.Name, pt.Ordinal), "files_after_kill": got.Files})
+					} else {
+						r.Count("aftermath_writes_checked", 1)
 					}
 					return
 				}
@@ -1665,4 +1672,47 @@ func main() {
 		os.RemoveAll(root)
 	}
 	r.Finish()
+}
+
+// aftermath: after a confirmed kill and a clean read-back, the keys the killed operation touched are written
+// again (first a SHORT value, then a long one) without any crash, with fresh objects, and read back. A leftover of
+// the killed write (for example a reused temporary file) must not leak into these values.
+func aftermath(dir string, sc *scenario, got snapshot) string {
+	st, err := util.NewFileStorage(dir)
+	if err != nil {
+		return ""
+	}
+	var keys []string
+	if sc.Target != "" {
+		keys = append(keys, sc.Target)
+	}
+	if sc.Kind == "transport-config" {
+		keys = append(keys, "uuid", "version", "configHash")
+	}
+	for _, k := range keys {
+		for _, v := range [][]byte{[]byte("s"), []byte("a-somewhat-longer-value-0123456789-0123456789"), {}} {
+			if err := st.Set(k, v); err != nil {
+				return fmt.Sprintf("after the kill, Set(%q, %d bytes) fails: %v", k, len(v), err)
+			}
+			st2, _ := util.NewFileStorage(dir)
+			b, err := st2.Get(k)
+			if err != nil || !bytes.Equal(b, v) {
+				return fmt.Sprintf("after the kill (state read back fine), a later uninterrupted Set(%q, %d bytes) reads back as %d bytes %q (err %v)", k, len(v), len(b), cut(b, 40), err)
+			}
+		}
+	}
+	if sc.EntName != "" {
+		d := db.NewDatabaseWithStorage(st)
+		for _, e := range []db.Entity{db.NewEntity(sc.EntName, []byte{1}, nil), db.NewEntity(sc.EntName, bytes.Repeat([]byte{7}, 32), bytes.Repeat([]byte{9}, 64))} {
+			if err := d.SaveEntity(e); err != nil {
+				return fmt.Sprintf("after the kill, SaveEntity(%q) fails: %v", sc.EntName, err)
+			}
+			st2, _ := util.NewFileStorage(dir)
+			back, err := db.NewDatabaseWithStorage(st2).EntityWithName(sc.EntName)
+			if err != nil || !bytes.Equal(back.PublicKey, e.PublicKey) || !bytes.Equal(back.PrivateKey, e.PrivateKey) {
+				return fmt.Sprintf("after the kill (state read back fine), a later uninterrupted SaveEntity(%q) does not read back (err %v)", sc.EntName, err)
+			}
+		}
+	}
+	return ""
 }
